@@ -38,6 +38,18 @@ def leq(a, b):
 
 # ---------------------------------------------------------------- quantile
 
+def kept(ctx, *pairs):
+    """The arrays handed in still hold the caller's values (a statistic OF a sample does not rewrite the sample: the
+    caller's next statistic, or the sampler's next round, is computed from the same arrays)."""
+    conds = []
+    for arr, vals in pairs:
+        if arr is None:
+            continue
+        flat = [v for r in vals for v in (r if isinstance(r, (list, tuple)) else [r])]
+        conds += [close(a, b) for a, b in zip(list(np.asarray(arr, dtype=object).reshape(-1)), flat)]
+    ctx.claim('the_callers_arrays_are_not_modified', And(*conds))
+
+
 def h_quantile(ctx, n, with_weights=True):
     x = [ctx.real('x%d' % i) for i in range(n)]
     if with_weights:
@@ -47,8 +59,10 @@ def h_quantile(ctx, n, with_weights=True):
         w = None
     alpha = ctx.real('alpha', 0, 1)
     with env(ctx):
-        q = mu.weighted_sample_quantile(ctx.array(x), alpha, ctx.array(w) if w is not None else None)
+        xa, wa = ctx.array(x), (ctx.array(w) if w is not None else None)
+        q = mu.weighted_sample_quantile(xa, alpha, wa)
     ctx.output('q', q)
+    kept(ctx, (xa, x), (wa, w))
     ww = w if w is not None else [Fraction(1)] * n
     W = Sum(ww)
     ctx.claim('q_in_sample', Or(*[q == xi for xi in x]))
@@ -141,7 +155,9 @@ def h_wvar(ctx, n, d, with_weights=True):
     ctx.assume(Not(V1 * V1 == V2))   # at least two effective observations
     with env(ctx):
         xa = ctx.array(X) if d > 1 else ctx.array([r[0] for r in X])
-        s2 = mu.weighted_var(xa, ctx.array(w) if w is not None else None)
+        wa = ctx.array(w) if w is not None else None
+        s2 = mu.weighted_var(xa, wa)
+    kept(ctx, (xa, X if d > 1 else [r[0] for r in X]), (wa, w))
     s2 = np.atleast_1d(s2)
     ctx.claim('shape', len(s2) == d)
     for j in range(d):
@@ -155,8 +171,10 @@ def h_ess(ctx, n):
     w = [ctx.real('w%d' % i, lo=0) for i in range(n)]
     ctx.assume(Sum(w) > 0)
     with env(ctx):
-        ess = mu.compute_ess(ctx.array(w))
-        nw = mu.normalize_weights(ctx.array(w))
+        wa, wb = ctx.array(w), ctx.array(w)
+        ess = mu.compute_ess(wa)
+        nw = mu.normalize_weights(wb)
+    kept(ctx, (wa, w), (wb, w))
     S = Sum(w)
     ctx.assume_nonzero_divisors = True
     ctx.claim_poly('ess_formula', ess, S * S / Sum([wi * wi for wi in w]))
